@@ -1533,7 +1533,8 @@ def run(ck: Check):
                      {'kind': 'client', 'case': key}, found_input=True)
 
     t0 = time.time()
-    a2_thread.join(timeout=2400 if thorough else 420)
+    a2_thread.join(timeout=float(os.environ.get('C14_A2_SECONDS', 0) or 0)
+                   + (2400 if thorough else 420))
     ck.coverage['seconds_waiting_for_real_process_batch'] = round(
         time.time() - t0, 1)
     if a2_thread.is_alive():
@@ -1585,7 +1586,9 @@ def _a2_batch(ck, a2, thorough):
             # together cover the core matrix
             k = ck.seed % len(cases)
             cases = cases[k:] + cases[:k]
-        t_end = time.time() + (1700 if thorough else 70)
+        budget = float(os.environ.get('C14_A2_SECONDS', 0) or
+                       (1700 if thorough else 70))
+        t_end = time.time() + budget
         for case in cases:
             if time.time() > t_end:
                 a2['skipped'] = (a2['skipped'] or '') + \
